@@ -623,8 +623,8 @@ func TestC40(t *testing.T) {
 	})
 	defer fasthttp.VerifSetPointHook(nil)
 
-	nSeq := r.N(500, 40_000)
-	nBurst := r.N(50, 2000)
+	nSeq := r.N(500, 20_000)
+	nBurst := r.N(50, 1500)
 	nExp := r.N(1, 6)
 	// case index space: [0,nSeq) sequential, [nSeq,nSeq+nBurst) bursts, then expiry waits
 
